@@ -10,14 +10,17 @@ EXTENDS Integers, Sequences, FiniteSets
 CONSTANTS TCallers, TCap, TN, Log
 
 VARIABLES sess, cur, bg, nid, owner, st, tab, unread, ufb, fb, rsv, cons, srv, owed, holder, ring, leaked, late, wbuf, wstale,
+          cb, inproc, armed, cbleak, pc,
           i,      \* next log line
           pend    \* [TCallers -> [op, s, ph, out]]   ph: "idle" | "called" | "done"
 
 SP == INSTANCE StreamPool WITH Callers <- TCallers, Cap <- TCap, N <- TN, MaxSess <- 1, MaxOwed <- 1, MaxUnread <- 1,
-                               DropCloses <- TRUE, GetChecksUnread <- TRUE, PutChecksWbuf <- TRUE,
+                               DropCloses <- TRUE, GetChecksUnread <- TRUE, PutChecksWbuf <- TRUE, CloseArmsAlways <- TRUE,
+                               ResetClearsCbFirst <- FALSE, PushBeforeRelease <- FALSE,
                                Feat <- {}
 
-spvars == <<sess, cur, bg, nid, owner, st, tab, unread, ufb, fb, rsv, cons, srv, owed, holder, ring, leaked, late, wbuf, wstale>>
+spvars == <<sess, cur, bg, nid, owner, st, tab, unread, ufb, fb, rsv, cons, srv, owed, holder, ring, leaked, late, wbuf, wstale,
+            cb, inproc, armed, cbleak, pc>>
 Idle == [op |-> "none", s |-> 0, ph |-> "idle", out |-> ""]
 
 TInit == SP!Init /\ i = 1 /\ pend = [c \in TCallers |-> Idle]
@@ -59,6 +62,8 @@ Reset == /\ i <= Len(Log) /\ Log[i].ev = "reset"
          /\ srv' = [s \in 1..TN |-> "none"] /\ owed' = [s \in 1..TN |-> 0]
          /\ holder' = [c \in TCallers |-> 0] /\ ring' = <<>> /\ leaked' = {} /\ late' = {}
          /\ wbuf' = [s \in 1..TN |-> FALSE] /\ wstale' = {}
+         /\ cb' = [s \in 1..TN |-> FALSE] /\ inproc' = [s \in 1..TN |-> FALSE] /\ armed' = [s \in 1..TN |-> FALSE]
+         /\ cbleak' = {} /\ pc' = [c \in TCallers |-> "idle"]
          /\ i' = i + 1 /\ UNCHANGED pend
 
 TNext == Inv \/ Ret \/ Reset \/ \E c \in TCallers : Lin(c)
